@@ -212,8 +212,16 @@ type VerifyOpts struct {
 // FullVerify compares everything.
 var FullVerify = VerifyOpts{Values: true, Relations: true, Scan: true, Hooks: true, Dead: true}
 
-// Verify compares the world with the model through the public API.
-func (b *WB) Verify(m *Model, o VerifyOpts) error {
+// Verify compares the world with the model through the public API. A panic of a read accessor
+// on a state the model considers legal is reported as an error as well.
+func (b *WB) Verify(m *Model, o VerifyOpts) (err error) {
+	if p := Call(func() { err = b.verify(m, o) }); p != nil {
+		return fmt.Errorf("%s: reading the world panicked: %v", b.Name, p)
+	}
+	return err
+}
+
+func (b *WB) verify(m *Model, o VerifyOpts) error {
 	w := b.W
 	if len(b.H) != len(m.Ents) {
 		return fmt.Errorf("%s: harness bookkeeping: %d handles for %d model entities", b.Name, len(b.H), len(m.Ents))
